@@ -28,6 +28,7 @@ GUser ==
   \/ \E x \in Waits, c \in CircIds : WaitClosed(x, c) /\ H([a |-> "WaitClosed", x |-> x, id |-> c])
   \/ \E x \in Waits, c \in CircIds : CloseC(x, c) /\ H([a |-> "CloseC", x |-> x, id |-> c])
   \/ \E x \in Waits, s \in StreamIds : CloseS(x, s) /\ H([a |-> "CloseS", x |-> x, id |-> s])
+  \/ \E x \in Waits, c \in CircIds, p \in Purposes, bf \in 1..2 : Build(x, c, p, bf) /\ H([a |-> "Build", x |-> x, id |-> c, pur |-> p, bf |-> bf])
 GNext ==
   \/ GTor /\ (IF phase = "pre" THEN cnt.pre < MaxPre ELSE cnt.ev < MaxEv)
   \/ Snapshot /\ H([a |-> "Snapshot"])
